@@ -134,12 +134,21 @@ def start (stamp : Int) (e : Exch) (arg : Option Nat) : Exch × Out :=
     | none => (e, ⟨[], some .valueError⟩)
     | some _ => ({ e with done := true }, ⟨[], none⟩)      -- finish()
 
+/-- which of the three methods that record and queue the latest message is called:
+`send(tx)` (= `prepSend(tx)`; `transmit(pkt=tx)`), `transmit(pkt)` directly, or `message(msg)`;
+all three: `if x is not None: self.tx = x`; `if self.tx is None: raise ValueError`; queue `self.tx` -/
+inductive Via where
+  | send
+  | transmit
+  | message
+deriving DecidableEq, Repr
+
 inductive Op where
   | create (k : Kind) (timeout redo : Option Int) (tx rx : Option Nat)
   | start (arg : Option Nat)
   | advance (dt : Int)            -- `stack.stamper.advance(dt)`
   | process
-  | send (tx : Option Nat)
+  | send (via : Via) (tx : Option Nat)
   | receive (rx : Nat)
   | finish
   | fail
@@ -170,7 +179,7 @@ def step (v : Variant) (w : World) : Op → World × Out
   | .start arg => w.call (fun e => start w.stamp e arg)
   | .advance dt => ({ w with stamp := w.stamp + dt }, ⟨[], none⟩)
   | .process => w.call (process w.stamp)
-  | .send tx => w.call (fun e => send e tx)
+  | .send _ tx => w.call (fun e => send e tx)
   | .receive rx => w.call (fun e => ({ e with rx := some rx }, ⟨[], none⟩))
   | .finish => w.call (fun e => ({ e with done := true }, ⟨[], none⟩))
   | .fail => w.call (fun e => (fail e, ⟨[], none⟩))
@@ -195,7 +204,7 @@ time passes (never backwards), `process`, a new message, a reception -/
 def Op.passive : Op → Bool
   | .advance dt => decide (0 ≤ dt)
   | .process => true
-  | .send (some _) => true
+  | .send _ (some _) => true
   | .receive _ => true
   | _ => false
 
